@@ -115,6 +115,22 @@ Theorem C08_refuted_smoothing_left_edge :
 Proof. exact (conj smooth_left_edge_refuted smooth_right_edge_needs_width). Qed.
 Print Assumptions C08_refuted_smoothing_left_edge.
 
+(* buffered-image mode: the crop window set by jpeg_crop_scanline persists over all output passes (generated
+   fact: it is initialised once per image, prepare_for_output_pass does not touch it) *)
+Theorem C08_crop_window_persists_over_output_passes : gen_crop_window_set_once = true.
+Proof. exact (eq_refl true). Qed.
+Print Assumptions C08_crop_window_persists_over_output_passes.
+
+(* TurboJPEG destination: row_pointer[i] = &dstBuf[anchor(i) * pitch] with the generated anchor; bottom-up delivery is
+   the reversal of top-down delivery and stays inside the h rows (pitch * h bytes) of the destination *)
+Theorem C08_tj_bottomup_is_reversal :
+  forall outh h, 0 <= h ->
+  map (tj_row_anchor true gen_tj_bottomup_anchor_cropped outh h) (zseq 0 (Z.to_nat h)) =
+  rev (map (tj_row_anchor false gen_tj_bottomup_anchor_cropped outh h) (zseq 0 (Z.to_nat h))) /\
+  (forall i, 0 <= i < h -> 0 <= tj_row_anchor true gen_tj_bottomup_anchor_cropped outh h i < h).
+Proof. exact tj_bottomup_is_reversal. Qed.
+Print Assumptions C08_tj_bottomup_is_reversal.
+
 (* (3)+(4) skip/read histories on the no-context main controller (separate or merged upsampler).
    FULL statement (kept visible; it is FALSE for the code that exists, see C08_skip_read_equals_full_refuted):
    for every geometry and every list of Read/Skip ops the run behaves like a full decode. *)
